@@ -952,4 +952,62 @@ def toyH : Hashes :=
 def exKey : PubKey := { version := 4, created := 0x01020304, expiry := 0, alg := 27, mat := [.raw (List.replicate 32 7)] }
 
 
+/-! ## the key parsers after repair D15d (`parseBodyCur`) -/
+
+theorem pubLenExactF_on : pubLenExactF = true := by decide
+
+theorem parseBodyCur_some (strict : Bool) (w : Bytes) (p : PubKey × Bytes) (h : parseBodyCur strict w = some p) :
+    parseBody true w = some p := by
+  unfold parseBodyCur at h
+  rw [pubLenExactF_on] at h
+  simp only [if_true] at h
+  split at h
+  · exact h
+  · cases h
+
+theorem parseBodyCur_eq (strict : Bool) (w : Bytes) (h : v6CountExact w = true) :
+    parseBodyCur strict w = parseBody true w := by
+  unfold parseBodyCur
+  rw [pubLenExactF_on]
+  simp [h]
+
+/-- both parsers are one function of the octets -/
+theorem parseBodyCur_strict_irrelevant (w : Bytes) : parseBodyCur false w = parseBodyCur true w := by
+  unfold parseBodyCur
+  rw [pubLenExactF_on]
+  simp
+
+theorem v6CountExact_serBody (k : PubKey) (body rest : Bytes) (hs : serBody k = some body)
+    (hpos : k.version = 6 → 0 < (serMaterial k.mat).length) :
+    v6CountExact (body ++ rest) = true := by
+  unfold serBody at hs
+  split at hs
+  · rename_i hv
+    simp only [Option.some.injEq] at hs
+    subst hs
+    have : k.version.toUInt8 ≠ 6 := by rcases hv with h | h <;> rw [h] <;> decide
+    simp [v6CountExact, this]
+  · split at hs
+    · rename_i _ hv
+      simp only [Option.some.injEq] at hs
+      subst hs
+      have : k.version.toUInt8 ≠ 6 := by rw [hv]; decide
+      simp [v6CountExact, this]
+    · split at hs
+      · rename_i _ _ hv
+        split at hs
+        · rename_i hlt
+          simp only [Option.some.injEq] at hs
+          subst hs
+          have h6 : k.version.toUInt8 = 6 := by rw [hv]; decide
+          rw [be32_eq, be32_eq]
+          simp only [List.cons_append, List.nil_append, v6CountExact, h6, if_true]
+          rw [beNat_be32 _ hlt]
+          have := hpos hv
+          simp only [List.length_append, decide_eq_true_eq]
+          omega
+        · cases hs
+      · cases hs
+
 end Rpgp
+
